@@ -15,6 +15,11 @@ Ops     : ("align", member letter, noise level): the target is member(source) + 
           ("alignf", member, noise, source form, target form): the same for a reduced member alphabet with source
           and/or target presented as float32 / int64 / int32 / int16 / uint8 / list / tuple / read-only /
           non-contiguous / Fortran-ordered data, or the options as numpy bools (level 0 only).
+          ("route", name, member, noise): the same (source, target) reached by another public route - set_target
+          on an alignment built for the source itself / for an unrelated target, copy(), copy() then set_target,
+          from_vector / from_vector_inplace of the constructor result's parameters then set_target (vectorizable
+          classes), set_rotation_matrix then set_target, the module-level optimal_rotation_matrix /
+          procrustes_alignment - each with the full oracle and exact agreement with the constructor route.
           ("refuse", kind) on the live alignment of a level-1 state (self loops): set_target with n+1 / n-1 points
           or another dimensionality, apply to points of another dimensionality, PWA apply with a point outside
           every source triangle (plain and batched), constructor calls with mismatched sizes / dimensionalities,
@@ -74,6 +79,24 @@ FORM_PAIRS = (
 FORM_FAMILIES = ("tr", "sc", "rot", "simrefl", "aff", "arb")
 NOISE_FORM = (0.0, 0.1)
 OPTION_CLASSES = ("RotM", "SimM", "SimNR", "SimNRM", "GPAM")
+
+# ---- public routes to an alignment of (source, target) next to the plain constructor (each gets the full oracle
+# and must agree with the constructor's result on the same inputs)
+ROUTES_ALL = ("set_target:from-source", "set_target:from-other", "copy", "copy+set_target")
+ROUTES_VECTOR = ("from_vector", "from_vector_inplace")  # then set_target(T); where the class is vectorizable
+ROUTE_NAMES = ROUTES_ALL + ROUTES_VECTOR + ("set_rotation_matrix", "function")
+NON_ALIGNMENT = {"Tr": "Translation", "US": "UniformScale", "Rot": "Rotation", "RotM": "Rotation", "Sim": "Similarity", "SimM": "Similarity", "SimNR": "Similarity", "SimNRM": "Similarity", "Aff": "Affine"}
+
+
+def routes_of(cls, d):
+    out = list(ROUTES_ALL)
+    if cls in ("Tr", "US", "Aff") or (cls in ("Rot", "RotM") and d == 3) or (cls in SIMILARITY_OPTS and d == 2):
+        out += list(ROUTES_VECTOR)  # (2-D rotations and 3-D similarities are not vectorizable in menpo)
+    if cls in ("Rot", "RotM"):
+        out += ["set_rotation_matrix", "function"]  # function = module level optimal_rotation_matrix
+    if cls in SIMILARITY_OPTS:
+        out += ["function"]  # module level procrustes_alignment
+    return out
 
 HOMOG = ("Tr", "US", "Rot", "RotM", "Sim", "SimM", "SimNR", "SimNRM", "Aff")
 TPS = ("TPS", "TPS2")
@@ -618,6 +641,11 @@ class C07(Check):
                         if fs == "u8" and ft == "u8" and m[0] not in ("sc", "arb"):
                             continue  # the image must stay inside the range of the unsigned type
                         out.append(("alignf", m, nz, fs, ft))
+            # alternate public routes to the same alignment
+            for rt in routes_of(cls, d):
+                for nz in NOISE_FORM:
+                    for m in member_letters(d, "small"):
+                        out.append(("route", rt, m, nz))
             return out
         out = []
         live = st["live"]
@@ -758,6 +786,8 @@ class C07(Check):
             return self._apply_refuse(st, op, verify)
         if op[0] == "recheck":
             return self._apply_recheck(st, verify)
+        if op[0] == "route":
+            return self._apply_route(st, op, verify)
         cls, d = st["cls"], st["d"]
         if op[0] == "alignf":
             _, member, noise, fs, ft = op
@@ -793,6 +823,140 @@ class C07(Check):
         # deeper levels: only behind an affine family member with noise 0 or 0.1 (the image of a general-position
         # source under such a map is again in general position; the guard is re-evaluated on the real output)
         st["chain_ok"] = member[0] != "arb" and noise in NOISE_CHAIN and op[0] == "align"
+        return fails
+
+    # ------------------------------------------------------------------ alternate routes
+    def _apply_route(self, st, op, verify):
+        from menpo.shape import PointCloud
+        from menpo.transform.base.alignment import Alignment
+        from mc.observe import obs_diff, observe
+
+        _, route, member, noise = op
+        cls, d = st["cls"], st["d"]
+        s = st["S"].copy()
+        t = self._target(s, member, noise)
+        t_other = self._target(s, ("arb", 1), 0.0)
+        self._k, self._form, self._exact = 1.0, ("f64", "f64"), True
+        tri = st["tri"]
+        where = "%s/%dd" % (cls, d)
+        fails = []
+        scl = max(1.0, float(np.abs(s).max()), float(np.abs(t).max()))
+
+        def bad(clause, detail):
+            fails.append(Failure(where, "%s@%s" % (clause, route), "member=%r noise=%r n=%d: %s" % (member, noise, len(s), detail)))
+
+        fresh, fsrc, ftgt = self._construct(cls, s, t, tri)
+        self.note("route:%s" % route)
+        al, src, tgt = None, None, PointCloud(t.copy())
+
+        def synced(x, what):
+            """after a re-parametrisation the target is the aligned source and the error is zero."""
+            ax = np.asarray(x.apply(s.copy()))
+            if np.abs(np.asarray(x.target.points) - ax).max() > TOL_ID * scl * 10:
+                bad("target-synced", "%s: target is not the aligned source (off by %.3g)" % (what, np.abs(np.asarray(x.target.points) - ax).max()))
+            if abs(float(x.alignment_error())) > TOL_ID * scl * 10:
+                bad("alignment-error", "%s: alignment_error()=%.3g right after the target was synced from the state" % (what, x.alignment_error()))
+            if np.abs(np.asarray(x.h_matrix) - np.asarray(fresh.h_matrix)).max() > TOL_ID * scl:
+                bad("parameters", "%s: h_matrix differs from the one whose parameters were given by %.3g" % (what, np.abs(np.asarray(x.h_matrix) - np.asarray(fresh.h_matrix)).max()))
+
+        if route == "function":
+            if cls in ("Rot", "RotM"):
+                from menpo.transform.homogeneous.rotation import optimal_rotation_matrix
+
+                r = np.asarray(optimal_rotation_matrix(fsrc, tgt, allow_mirror=cls == "RotM"))
+                h = np.eye(d + 1)
+                h[:d, :d] = r
+            else:
+                from menpo.transform.homogeneous.similarity import procrustes_alignment
+
+                rot, mir = SIMILARITY_OPTS[cls]
+                sim = procrustes_alignment(fsrc, tgt, rotation=rot, allow_mirror=mir)
+                if isinstance(sim, Alignment) or type(sim).__name__ != "Similarity":
+                    bad("result-class", "procrustes_alignment returned %s" % type(sim).__name__)
+                h = np.asarray(sim.h_matrix)
+                if np.abs(np.asarray(sim.apply(s.copy())) - apply_h(h, s)).max() > TOL_ID * scl * 10:
+                    bad("aligned-source", "apply(source) differs from h_matrix applied to the source")
+            st["S"] = np.array(fresh.aligned_source().points, dtype=float)
+            st["level"] += 1
+            st["chain_ok"] = False
+            st["live"] = None
+            st["tkey"] = (obs_key(t), "route", route)
+            if not verify:
+                return []
+            a1 = apply_h(h, s)
+            sub = self._homog_clauses(cls, d, where, h, s, t, a1, fro(a1 - t), scl, member, noise)
+            fails.extend(Failure(f.where, "%s@%s" % (f.clause, route), f.detail) for f in sub)
+            if not np.array_equal(h, np.asarray(fresh.h_matrix)):
+                bad("route-agreement", "the module-level function and the alignment class disagree by %.3g" % np.abs(h - np.asarray(fresh.h_matrix)).max())
+            else:
+                self.note("route:agrees-with-constructor")
+            if not np.array_equal(fsrc.points, s) or not np.array_equal(tgt.points, t):
+                bad("inputs-mutated", "the point clouds passed to the function were modified")
+            return fails
+
+        if route in ("set_target:from-source", "set_target:from-other"):
+            al, src, _ = self._construct(cls, s, s.copy() if route.endswith("source") else t_other, tri)
+            ret = al.set_target(tgt)
+            if ret is not None:
+                bad("result", "set_target returned %r" % (ret,))
+        elif route == "copy":
+            al0, src, tgt = self._construct(cls, s, t, tri)
+            al = al0.copy()
+            if al is al0 or type(al) is not type(al0):
+                bad("result-class", "copy() returned %s" % type(al).__name__)
+        elif route == "copy+set_target":
+            al0, src, _ = self._construct(cls, s, t_other, tri)
+            h0 = observe(al0)
+            al = al0.copy()
+            al.set_target(tgt)
+            if obs_diff(h0, observe(al0)) is not None:
+                bad("copy-independent", "retargeting the copy changed the original: %s" % obs_diff(h0, observe(al0)))
+        elif route in ("from_vector", "from_vector_inplace", "set_rotation_matrix"):
+            lin = np.asarray(fresh.h_matrix)[:d, :d]
+            if route != "set_rotation_matrix" and cls not in ("Tr", "US", "Aff") and np.linalg.det(lin) < 0:
+                # a reflection has no rotation / similarity parameter vector: this route does not reach it
+                self.note("route:%s:reflection-not-representable" % route)
+                al, src, _ = self._construct(cls, s, t_other, tri)
+                al.set_target(tgt)
+            else:
+                base, src, _ = self._construct(cls, s, t_other, tri)
+                if route == "from_vector":
+                    before = observe(base)
+                    al = base.from_vector(fresh.as_vector())
+                    if al is base or type(al) is not type(base):
+                        bad("result-class", "from_vector returned %s" % type(al).__name__)
+                    if obs_diff(before, observe(base)) is not None:
+                        bad("copy-independent", "from_vector changed its receiver: %s" % obs_diff(before, observe(base)))
+                elif route == "from_vector_inplace":
+                    al = base
+                    al.from_vector_inplace(fresh.as_vector())  # public (deprecated) in-place route
+                else:
+                    al = base
+                    al.set_rotation_matrix(np.array(fresh.rotation_matrix))
+                if verify:
+                    synced(al, route)
+                self.note("route:%s:parameters-set" % route)
+                al.set_target(tgt)
+        else:
+            raise ValueError(route)
+        if verify:
+            sub = self._oracle(cls, d, al, src, tgt, s, t, member, noise, st)
+            fails.extend(Failure(f.where, "%s@%s" % (f.clause, route), f.detail) for f in sub)
+            diff = obs_diff(observe(al), observe(fresh))
+            if diff is not None:
+                bad("route-agreement", "differs from cls(source, target) built directly: %s" % diff)
+            else:
+                self.note("route:agrees-with-constructor")
+        try:
+            st["S"] = np.array(al.aligned_source().points, dtype=float)
+        except Exception:
+            if fails:
+                return fails
+            raise
+        st["level"] += 1
+        st["chain_ok"] = False
+        st["live"] = {"al": al, "src": src, "tgt": tgt, "s": s, "t": t, "member": member, "noise": noise, "forms": ("route", route), "tri": tri}
+        st["tkey"] = (obs_key(t), "route", route)
         return fails
 
     # ------------------------------------------------------------------ refused calls on the live alignment
@@ -944,6 +1108,18 @@ class C07(Check):
         baseline = self._form == ("f64", "f64")
         if (not (np.array_equal(a1, a2) and np.array_equal(a1, a3))) if baseline else (a1.shape != a2.shape or a1.shape != a3.shape or max(np.abs(a1 - a2).max(), np.abs(a1 - a3).max()) > self._t(TOL_ID) * scl * 10):
             bad("aligned-source", "aligned_source() / apply(source) / apply(source points) differ by %.3g" % max(np.abs(a1 - a2).max(), np.abs(a1 - a3).max()))
+        if baseline:
+            ab = np.asarray(al.apply(s.copy(), batch_size=2))
+            if ab.shape != a1.shape or np.abs(ab - a1).max() > self._t(TOL_ID) * scl:
+                bad("aligned-source", "apply(source, batch_size=2) differs from apply(source)")
+            if cls in HOMOG:
+                from menpo.transform.base.alignment import Alignment
+
+                na = al.as_non_alignment()
+                if isinstance(na, Alignment) or type(na).__name__ != NON_ALIGNMENT[cls]:
+                    bad("as-non-alignment", "as_non_alignment() returned %s" % type(na).__name__)
+                elif not np.array_equal(np.asarray(na.h_matrix), np.asarray(al.h_matrix)) or np.abs(np.asarray(na.apply(s.copy())) - a1).max() > self._t(TOL_ID) * scl:
+                    bad("as-non-alignment", "as_non_alignment() is another map than the alignment")
         err = float(al.alignment_error())
         err_ref = fro(t - a1)
         if abs(err - err_ref) > self._t(TOL_ID) * scl * (1 + err_ref):
@@ -1402,6 +1578,8 @@ class C07(Check):
         ]
         need += ["centroid+size:%s" % c for c in ("Sim", "SimM", "SimNR", "SimNRM", "GPA")]
         need += ["form:%s>%s" % p for p in FORM_PAIRS]
+        need += ["route:%s" % r for r in ROUTE_NAMES] + ["route:agrees-with-constructor"]
+        need += ["route:%s:parameters-set" % r for r in ROUTES_VECTOR + ("set_rotation_matrix",)]
         need += ["refused:%s:ValueError" % k for k in ("set_target:n+1", "set_target:n-1", "set_target:dims", "apply:dims", "construct:n-mismatch", "construct:dims", "construct:3d", "gpa:one-source")]
         need += ["refused:apply:outside:TriangleContainmentError", "refused:apply:outside-batched:TriangleContainmentError", "refused:construct:singular:LinAlgError", "recheck:after-refused-calls"]
         need.append("form:integer-target-is-exact-image-of-noninteger-source")
@@ -1427,6 +1605,7 @@ class C07(Check):
             "noise_levels": list(NOISE[self.tier]),
             "noise_levels_deeper": list(NOISE_CHAIN),
             "gpa_triples": len(gpa_triples(2)),
+            "routes": list(ROUTE_NAMES),
             "argument_form_pairs(source,target)": ["%s>%s" % p for p in FORM_PAIRS],
             "argument_form_members": list(FORM_FAMILIES),
             "argument_form_noise": list(NOISE_FORM),
@@ -1445,6 +1624,7 @@ class C07(Check):
             "deeper levels are expanded only behind an affine-family member with noise level 0 or 0.1 and while the chained source passes the guard (distance >= %g, area >= %g, singular value >= %g)" % (GUARD_DIST, GUARD_AREA, GUARD_SV),
             "GPA: the clauses of the similarity alignment are applied to every returned transform against the target it reports; convergence itself is recorded, not demanded",
             "refused-call letters act on the live alignment built by a float64 'align' op with noise 0 or 0.1 (level 1, self loops); expected refusals: ValueError (set_target / apply / constructor with wrong size or dimensionality, TPS / PWA on 3-D data, GPA with one source), TriangleContainmentError with the exact outside mask (PWA), numpy LinAlgError (affine fit of collinear points); PWA from a 3-D PointCloud is not a letter (scipy's Qhull decides the outcome before menpo's check)",
+            "routes (level 0, reduced member alphabet x noise 0 / 0.1): %s; after from_vector / from_vector_inplace / set_rotation_matrix the target must be the aligned source and the error 0, then set_target(T) gets the full oracle; 2-D rotations and 3-D similarities are not vectorizable in menpo (NotImplementedError) and reflections have no rotation / similarity parameter vector, so those routes are not letters there; every alignment also answers apply(batch_size=2) and as_non_alignment() consistently" % ", ".join(ROUTE_NAMES),
             "argument forms (level 0, members %s, noise %s): float32 / int64 / int32 / int16 / uint8 payload (integer forms: the generic points x %g rounded; an integer target with a non-integer source is the exact image, source = member^-1(target)), python lists / tuples, read-only, non-contiguous and Fortran-ordered arrays (copy=False), options as numpy bools; the reference works in float64 on exactly the values passed; float32 letters use tolerances of 1e-3..1e-4; combinations the unchanged tree mishandles (listed under argument_form_exclusions) are not letters" % (", ".join(FORM_FAMILIES), NOISE_FORM, INT_SCALE),
             "noise = level x one fixed direction per (n, d) drawn from the seed; 'arbitrary' targets are unrelated generic point sets",
         ]
